@@ -26,6 +26,14 @@ impl TokenInner {
     /// The poller key of the property statement: id * 2^32 + generation * 2^16 + sub-id.
     pub open spec fn key(self) -> int { self.sid() * 0x1_0000_0000 + self.sver() * 0x1_0000 + self.ssub() }
     pub open spec fn same_src(self, o: TokenInner) -> bool { self.sid() == o.sid() && self.sver() == o.sver() }
+    /// the slot token a (sub-)token belongs to
+    pub closed spec fn forget(self) -> TokenInner { TokenInner { id: self.id, version: self.version, sub_id: 0 } }
+    pub broadcast proof fn lemma_forget(self)
+        ensures #[trigger] self.forget().sid() == self.sid(), self.forget().sver() == self.sver(), self.forget().ssub() == 0,
+    {}
+    pub proof fn lemma_forget_eq(a: TokenInner, b: TokenInner)
+        ensures a.same_src(b) <==> a.forget() == b.forget(),
+    {}
     pub closed spec fn mk(id: int, ver: int, sub: int) -> TokenInner {
         TokenInner { id: id as u32, version: ver as u16, sub_id: sub as u16 }
     }
@@ -68,15 +76,19 @@ impl TokenInner {
 //@ item src/token.rs / impl TokenInner / fn increment_sub_id props=C20,C01 ret=r
 //@ spec
         requires self.ssub() < 0xFFFF,
-        ensures r.sid() == self.sid(), r.sver() == self.sver(), r.ssub() == self.ssub() + 1,
+        ensures r.sid() == self.sid(), r.sver() == self.sver(), r.ssub() == self.ssub() + 1, r.forget() == self.forget(),
 //@ enditem
 //@ item src/token.rs / impl TokenInner / fn forget_sub_id props=C20,C01 ret=r
 //@ spec
-        ensures r.sid() == self.sid(), r.sver() == self.sver(), r.ssub() == 0,
+        ensures r.sid() == self.sid(), r.sver() == self.sver(), r.ssub() == 0, r == self.forget(),
 //@ enditem
 //@ close
 
 //@ region token_from_specs props=C20
+impl vstd::std_specs::cmp::PartialEqSpecImpl for TokenInner {
+    open spec fn obeys_eq_spec() -> bool { true }
+    open spec fn eq_spec(&self, other: &TokenInner) -> bool { *self == *other }
+}
 impl vstd::std_specs::convert::FromSpecImpl<usize> for TokenInner {
     open spec fn obeys_from_spec() -> bool { true }
     open spec fn from_spec(value: usize) -> TokenInner {
